@@ -18,8 +18,16 @@ def image_case(seed, big=False):
     imgs, runs, rels, parts = [], [], [], []
     defaults, overrides = [], []
     for k in range(n):
+        if k > 0 and rng.random() < 0.25:
+            # the same picture placed again: same relationship, same alt text, same part (a logo repeated on every page);
+            # still one img / one converter call per occurrence
+            prev = dict(imgs[-1])
+            runs.append(el("w:r", [], [el("w:t", [], ["t%d" % k]), prev["node"]]))
+            imgs.append(prev)
+            continue
         ext = rng.choice(["png", "PNG", "jpg", "JPeG", "gif", "bmp", "tif", "emf", "svg", "xyz"])
-        name = "word/media/image%d.%s" % (k + 1, ext)
+        stem = rng.choice(["image%d", "image%d", "image%d", "im%%20age%d", "%%41%d", "pic+%d"]) % (k + 1)   # part names are not URI-decoded
+        name = "word/media/%s.%s" % (stem, ext)
         size = rng.choice([0, 1, 2, 3, 4, 5, 31, 256] + ([70000, 200000] if big else []))
         data = bytes(range(256)) if size == 256 else bytes(rng.randrange(256) for _ in range(size))
         how = rng.choice(["override", "default", "default-lower", "none", "both"])
@@ -39,7 +47,7 @@ def image_case(seed, big=False):
         if expected_ct is None and ext.lower() in BUILTIN:
             expected_ct = "image/" + BUILTIN[ext.lower()]
         rid = "rIdI%d" % k
-        target = rng.choice(["media/image%d.%s" % (k + 1, ext), "/" + name])
+        target = rng.choice(["media/%s.%s" % (stem, ext), "/" + name])
         rels.append([rid, REL + "image", target])
         kind = rng.choice(["inline", "anchor", "vml"])
         descr, title = rng.choice([None, "", "  ", "descr %d" % k]), rng.choice([None, "title %d" % k])
@@ -54,7 +62,7 @@ def image_case(seed, big=False):
             alt = descr if (descr or "").strip() else title
         runs.append(el("w:r", [], [el("w:t", [], ["t%d" % k]), node]))
         parts.append({"name": name, "hex": data.hex()})
-        imgs.append({"bytes": data, "ct": expected_ct, "alt": alt, "name": name, "ext": ext, "vml": kind == "vml"})
+        imgs.append({"bytes": data, "ct": expected_ct, "alt": alt, "name": name, "ext": ext, "vml": kind == "vml", "node": node})
     # the declared type, read off the final tables: override by part name, else default by exact
     # extension (last declaration wins), else the built-in table for common image extensions
     ov, df = dict(overrides), {}
